@@ -28,6 +28,8 @@ class FrontEnd:
     def off(self, web_app=injected):
         script_control = web_app.get_script_control('off')
         web_app.stop_current()
+        if script_control is None:
+            return self.index()
         web_app.queue_script(script_control)
         return self.render_action(script_control, "")
 
@@ -48,12 +50,16 @@ class FrontEnd:
     def stop_current(self, web_app=injected):
         script_control = web_app.get_script_control('stop-current')
         web_app.stop_current()
+        if script_control is None:
+            return self.index()
         return self.render_action(script_control, "Requested")
 
     @inject(WebApp)
     def stop_all(self, web_app=injected):
         script_control = web_app.get_script_control('stop-all')
         web_app.stop_all()
+        if script_control is None:
+            return self.index()
         return self.render_action(script_control, "Requested")
 
     @inject(WebApp)
